@@ -21,6 +21,8 @@ from ...module import Module
 from ...portref import PortRef
 from ...bundle import BundleInstance, BundleRef, AnonymousBundle
 from ...signal import PortDir, Signal, Visibility
+from ...slice import Slice
+from ...concat import Concat
 from ...noconn import NoConn
 from ..helpers.resolve_ref_types import update_ref_deps
 
@@ -31,7 +33,8 @@ from .base import ElabPass
 # i.e. the things which we are resolve `PortRef`s *to*.
 # If we find one of these connected to a group of connected ports,
 # it becomes the replacement connection for all of them.
-Source = Union[Signal, BundleInstance, BundleRef, AnonymousBundle]
+# Slices and Concatenations count: a referenced port connected to `bus[0]` is sourced by `bus[0]`.
+Source = Union[Signal, Slice, Concat, BundleInstance, BundleRef, AnonymousBundle]
 
 # Union of the types which can serve as (generalized) Ports:
 # either Signals or Bundle Instances
@@ -167,6 +170,12 @@ class ResolvePortRefs(ElabPass):
         if len(sources) == 0:
             return None
         if len(sources) == 1:
+            # A Slice or Concat which itself refers to a port of this group would define the group in terms of itself.
+            group_port_refs = [x for x in group if isinstance(x, PortRef)]
+            if _depends_on(sources[0], group_port_refs):
+                msg = f"Invalid self-referencing connection {sources[0]} among Ports "
+                msg += f"{[(p.inst.name, p.portname) for p in group_port_refs]}"
+                self.fail(msg)
             return sources[0]
 
         # More than one source, somehow. Error time.
@@ -331,6 +340,17 @@ class SetList:
     @property
     def order(self):
         return self.list
+
+
+def _depends_on(conn: Connectable, prefs: List[PortRef]) -> bool:
+    """Boolean indication of whether `conn` is, slices, or concatenates any of port-references `prefs`."""
+    if isinstance(conn, PortRef):
+        return any(conn is p for p in prefs)
+    if isinstance(conn, Slice):
+        return _depends_on(conn.parent, prefs)
+    if isinstance(conn, Concat):
+        return any(_depends_on(part, prefs) for part in conn.parts)
+    return False
 
 
 def resolve_portref(pref: PortRef, to: Connectable) -> None:
